@@ -671,3 +671,200 @@ def c26(tier):
     ck.trust(*TRUST)
     ck.assume("bounded design space D", "partial last repetition: Pin with negative index, ExactlyK and runs cut at the end are ambiguous in the docs and not judged")
     return ck.finish()
+
+
+# =========================================================================================== C29
+def _smgen_eval(arg):
+    d, seeds = arg
+    import random as _r
+    import numpy as _np
+    out = {"name": d["name"], "tags": d["tags"], "runs": []}
+    try:
+        geo = model.geometry(d)
+    except model.Unsupported as e:
+        geo = None
+        out["oracle_unsupported"] = str(e)
+    try:
+        block, _ = model.build(d)
+    except Exception as e:
+        out["build_error"] = [type(e).__name__, str(e)[:200]]
+        return out
+    names = SC.user_factors(d)
+    out["T_lib"] = block.trials_per_sample()
+    for sd in seeds:
+        _r.seed(sd)
+        _np.random.seed(sd)
+        try:
+            res = SC.runner.synth(block, 3, "SMGen")
+            rec = dict(seed=sd, n=len(res), lens=sorted({len(v) for e in res for v in e.values()}))
+            bad = []
+            if geo is not None:
+                for e in res:
+                    ok_keys = all(f in e for f in geo["design"])
+                    c = model.classify(d, {f: list(e[f]) for f in geo["design"]}, geo) if ok_keys else model.INVALID
+                    if c == model.INVALID:
+                        bad.append({f: list(e.get(f, [])) for f in names})
+            elif res and rec["lens"] != [out["T_lib"]]:
+                bad.append(dict(lengths=rec["lens"]))
+            rec["invalid"] = bad[:2]
+            out["runs"].append(rec)
+        except Exception as e:
+            msg = str(e)
+            refusal = type(e) is Exception and ("not supported by SMGen" in msg or "Unsupported level" in msg)
+            out["runs"].append(dict(seed=sd, refused=refusal, exception=None if refusal else [type(e).__name__, msg[:300]]))
+            if refusal:
+                break
+    return out
+
+
+def c29(tier):
+    ck = Check("C29", tier, "other",
+               "SMGen either refuses or is valid: (finite-domain, exhaustive) for every concrete Constraint subclass and every block combinator found by "
+               "reflection on the current tree a minimal design containing it is given to SMGen.sample, which must raise its unsupported-feature error "
+               "or return only valid sequences; (E) every design of D is run with several random seeds and each returned sequence is judged by the "
+               "reference reading (trial count, crossing with weights, derived levels, constraints). Not covered: the 60 s timer thread that cuts the "
+               "search and the module-global state of scattered_map_core (the 'schedules' quantifier): designs are small enough to finish long before.")
+    ck.under_contract("sweetpea._internal.sampling_strategy.smgen:SMGen.sample")
+    # ---- reflection: every Constraint subclass must be represented in D (refused or validated)
+    import inspect
+    import sweetpea._internal.constraint as CT
+    from sweetpea._internal.base_constraint import Constraint
+    classes = sorted(n for n, o in vars(CT).items() if inspect.isclass(o) and issubclass(o, Constraint) and o is not Constraint and not n.startswith("_"))
+    covered = {"Consistency", "Cross", "Derivation", "Sustain", "MinimumTrials", "Reify", "ContinuousConstraint"}  # internal / always present / no effect on discrete trials
+    ds = SC.design_space(tier, seed(), random_n=30 if tier == "quick" else 300)
+    used = set()
+
+    def walk(node):
+        for c in node.get("constraints", []):
+            used.add(c[0])
+        for k in ("block", "outer", "inner"):
+            if k in node:
+                walk(node[k])
+        for b in node.get("blocks", []):
+            walk(b)
+    for d in ds:
+        walk(d["block"])
+    missing = [c for c in classes if c not in used and c not in covered and c != "ExactlyKMultipleInARow"]
+    ck.oblig("C29.refusal.classes(reflection)", "E", "passed" if not missing else "undecided",
+             detail=f"constraint classes on the tree: {classes}; exercised in D: {sorted(used)}; internal: {sorted(covered)}; not exercised: {missing}")
+    res = SC.runner.pmap(_smgen_eval, [(d, list(range(seed(), seed() + (3 if tier == "quick" else 8)))) for d in ds], jobs=12, timeout=40 if tier == "quick" else 120)
+    for d, (st, r) in zip(ds, res):
+        if st != "ok":
+            ck.oblig(f"C29.valid({d['name']})", "E", "undecided", detail=f"worker {st}")
+            continue
+        if "build_error" in r:
+            ck.count(r["name"], nontrivial=False)
+            continue
+        refused = any(run.get("refused") for run in r["runs"])
+        ck.count(r["name"], nontrivial=not refused)
+        ck.extra["refused"] = ck.extra.get("refused", 0) + (1 if refused else 0)
+        bad = None
+        for run in r["runs"]:
+            if run.get("exception"):
+                bad = f"raised {run['exception'][0]}: {run['exception'][1]} (not the documented unsupported-feature error)"
+            elif run.get("invalid"):
+                bad = f"returned an invalid sequence {run['invalid'][0]} (seed {run['seed']})"
+        ck.oblig(f"C29.valid({r['name']})", "E", "passed" if not bad else "failed", detail="refused" if refused else bad)
+        if bad:
+            ck.violation("C29.valid", f"{_cls(d, 'smgen')}:{r['name']}", f"design {r['name']}: SMGen {bad}", _replay(d, strategy="SMGen"),
+                         tags=dict(kind="smgen", features=SC.feature_class(d), block=d["block"]["kind"]))
+        ck.sample(dict(design=r["name"], refused=refused, runs=[{k: v for k, v in run.items() if k != "invalid"} for run in r["runs"]][:2]))
+    ck.rule = "one case per design of D x random seeds; non-trivial = SMGen accepted the design (did not raise its unsupported-feature error)"
+    ck.trust(*TRUST[1:])
+    ck.assume("timer interleavings of the search (threading.Timer) are not explored", "bounded design space D")
+    return ck.finish()
+
+
+# =========================================================================================== C24
+def _pair_eval(arg):
+    name, da, db = arg
+    out = {"name": name}
+    for tag, d in (("a", da), ("b", db)):
+        try:
+            block, _ = model.build(d)
+            T = block.trials_per_sample()
+            res = SC.runner.synth(block, 6000, "IterateSATGen")
+            names = SC.user_factors(d)
+            out[tag] = dict(T=T, n=len(res), keys=sorted(set(SC.key_of_exp(e, names) for e in res)), errors=sorted(e for e in block.errors if "WARNING" not in e))
+        except Exception as e:
+            out[tag] = dict(rejected=[type(e).__name__, str(e)[:200]])
+    return out
+
+
+def equivalence_pairs(tier, sd):
+    import copy
+    from spec import designs as DS
+    pairs = []
+    base = DS.curated() + DS.random_designs(sd, 12 if tier == "quick" else 400)
+    lim = 20_000 if tier == "quick" else 300_000
+
+    def small(d):
+        try:
+            return model.space_size(d) <= lim
+        except model.Unsupported:
+            return "random" not in d["tags"]
+    for d in base:
+        if not small(d):
+            continue
+        blk = d["block"]
+        mk = lambda b: {"name": d["name"], "factors": d["factors"], "block": b, "tags": d["tags"]}
+        if blk["kind"] == "multi":
+            m = DS.merge([DS.cross(blk["design"], c, [], blk.get("rcc", True)) for c in blk["crossings"]], blk["constraints"], mode=blk.get("mode", "equal"), alignment=blk.get("alignment"))
+            pairs.append((f"multicross_eq_merge:{d['name']}", d, mk(m)))
+        if blk["kind"] == "repeat" and blk["block"]["kind"] in ("cross", "multi"):
+            m = DS.merge([blk["block"]], blk["constraints"], mode="repeat", alignment="equal preamble")
+            pairs.append((f"repeat_eq_merge:{d['name']}", d, mk(m)))
+        if blk["kind"] == "cross":
+            pairs.append((f"repeat_empty_id:{d['name']}", d, mk(DS.repeat(blk, []))))
+            pairs.append((f"merge_single_id:{d['name']}", d, mk(DS.merge([blk]))))
+            m = DS.multi(blk["design"], [blk["crossing"]], blk["constraints"], blk.get("rcc", True), mode="weight")
+            pairs.append((f"cross_eq_multicross_weight:{d['name']}", d, mk(m)))
+    # multi-crossing designs with every mode and alignment
+    c2, d2, f3 = DS.fac("c", DS.A2), DS.fac("d", ["x", "y"]), DS.fac("f", ["p", "q", "s"])
+    tr = DS.transition_rep("t", "c", DS.A2)
+    for mode in ("weight", "repeat", "equal"):
+        for al in ("equal preamble", "parallel start", "post preamble"):
+            for facs, design, crossings, cons in (([c2, f3], ["c", "f"], [["c"], ["f"]], []),
+                                                  ([c2, d2], ["c", "d"], [["c"], ["d"]], [["AtMostKInARow", 1, "c", "r"]]),
+                                                  ([c2, d2, tr], ["c", "d", "t"], [["c", "t"], ["d"]], []),
+                                                  ([c2, f3, d2], ["c", "f", "d"], [["c"], ["f"]], [["ExactlyK", 1, "d", "x"]])):
+                a = DS.D(f"m-{mode}-{al}-{len(pairs)}", facs, DS.multi(design, crossings, cons, mode=mode, alignment=al))
+                b = DS.D(a["name"], facs, DS.merge([DS.cross(design, c, []) for c in crossings], cons, mode=mode, alignment=al))
+                pairs.append((f"multicross_eq_merge:{a['name']}", a, b))
+    return pairs
+
+
+def c24(tier):
+    ck = Check("C24", tier, "exploration",
+               "Relational contracts between the block constructors (no oracle): for each pair of constructions the documentation equates — "
+               "MultiCrossBlock vs Merge of CrossBlocks, Repeat vs Merge REPEAT/EQUAL_PREAMBLE, Repeat(block, []) and Merge([block]) vs block, CrossBlock vs "
+               "single-crossing MultiCrossBlock in WEIGHT mode — both sides are built from fresh objects; they must both be rejected or both accepted, "
+               "report the same trial count and have equal exhausted IterateSATGen solution sets.")
+    pairs = equivalence_pairs(tier, seed())
+    res = SC.runner.pmap(_pair_eval, pairs, jobs=14, timeout=30 if tier == "quick" else 300)
+    for (name, da, db), (st, r) in zip(pairs, res):
+        kind = name.split(":")[0]
+        if st != "ok":
+            ck.oblig(f"C24.{name}", "E", "undecided", detail=f"worker {st}")
+            continue
+        a, b = r["a"], r["b"]
+        if "rejected" in a or "rejected" in b:
+            ok = ("rejected" in a) == ("rejected" in b)
+            ck.count(name, nontrivial=False)
+            detail = f"left {a.get('rejected', 'accepted')}, right {b.get('rejected', 'accepted')}"
+        else:
+            ck.count(name)
+            if a["n"] >= 6000 or b["n"] >= 6000:
+                ck.oblig(f"C24.{name}", "E", "undecided", detail="not exhausted")
+                continue
+            ok = a["T"] == b["T"] and a["keys"] == b["keys"] and bool(a["errors"]) == bool(b["errors"])
+            detail = f"T {a['T']} vs {b['T']}, {len(a['keys'])} vs {len(b['keys'])} sequences, errors {a['errors'][:1]} vs {b['errors'][:1]}"
+        ck.oblig(f"C24.{name}", "E", "passed" if ok else "failed", detail=None if ok else detail)
+        if not ok:
+            ck.violation(f"C24.{kind}", f"{kind}:{name.split(':', 1)[1]}", f"documented equivalence {kind} fails for {name.split(':', 1)[1]}: {detail}",
+                         dict(replay_kind="pair", left=da, right=db), tags=dict(kind=kind, features=SC.feature_class(da)))
+        ck.sample(dict(pair=name, T=a.get("T"), sequences=len(a.get("keys", []))))
+    ck.rule = "one case per (equivalence, design): derived from the curated core, seeded random designs and a mode x alignment grid; non-trivial = both sides accepted"
+    ck.trust(*TRUST[:2])
+    ck.assume("bounded design space D")
+    return ck.finish()
